@@ -92,3 +92,185 @@ func ZZ_C17_errorAccounting() {
 	nondet.Reach("C17.cleanup-failed", failedCleanup > 0 && !failedStatus)
 	nondet.Reach("C17.all-ok", failedCreate+failedDelete+failedCleanup == 0 && !failedStatus)
 }
+
+// ZZ_C17_batches: the same accounting with batches: k nodes lacking a pod (k parallel
+// creations), k outdated available pods (k parallel update deletions, budget k) and k nodes
+// holding a duplicate (k parallel clean-up deletions); every pod call fails, is applied with the
+// answer lost, or succeeds, independently.  k = 2 (quick) / 3 (thorough).  A failure of any one
+// call of a batch — whichever position it has in the batch — must be recorded.
+func ZZ_C17_batches() {
+	k := 2
+	if nondet.Thorough() {
+		k = 3
+	}
+	c, ds, rsNew, _ := zzStore(3 * k)
+	ds.Status.ActiveReplicaSet = rsNew.Name
+	budget := intstr.FromInt(3 * k)
+	ds.Spec.Strategy.RollingUpdate.MaxUnavailable = &budget
+	ds.Spec.Strategy.RollingUpdate.MaxParallelPodCreation = func() *int32 { v := int32(3 * k); return &v }()
+	inc := intstr.FromInt(3 * k)
+	ds.Spec.Strategy.RollingUpdate.SlowStartAdditiveIncrease = &inc
+	for i := 0; i < k; i++ {
+		// nodes k..2k-1: outdated available pod; nodes 2k..3k-1: an up-to-date pod and its duplicate
+		c.Pods = append(c.Pods, zzPod("out"+zzNodeName(k+i), zzNodeName(k+i), zzOldRS, zzHashOld, 0, corev1.PodRunning, true, nondet.Base().Add(-120*1e9)))
+		c.Pods = append(c.Pods, zzPod("keep"+zzNodeName(2*k+i), zzNodeName(2*k+i), zzRSName, zzHashNew, 0, corev1.PodRunning, true, nondet.Base().Add(-120*1e9)))
+		c.Pods = append(c.Pods, zzPod("dup"+zzNodeName(2*k+i), zzNodeName(2*k+i), zzRSName, zzHashNew, 0, corev1.PodRunning, true, nondet.Base().Add(-60*1e9)))
+	}
+	c.InjectFaults = true
+	_, err := zzReconcile(zzReconciler(c, false), zzNS, rsNew.Name)
+
+	nCreate, nDelete, nCleanup := 0, 0, 0
+	failedCreate, failedDelete, failedCleanup, failedStatus := 0, 0, 0, false
+	for _, e := range c.Log {
+		isCleanup := e.Kind == "Pod" && e.Verb == "delete" && len(e.Name) >= 3 && e.Name[:3] == "dup"
+		switch {
+		case e.Kind == "Pod" && e.Verb == "create":
+			nCreate++
+			if e.Failed {
+				failedCreate++
+			}
+		case isCleanup:
+			nCleanup++
+			if e.Failed {
+				failedCleanup++
+			}
+		case e.Kind == "Pod" && e.Verb == "delete":
+			nDelete++
+			if e.Failed {
+				failedDelete++
+			}
+		case e.Verb == "status-update" && e.Failed:
+			failedStatus = true
+		}
+	}
+	recErr, cleanupFalse := false, false
+	for _, s := range c.ERS {
+		if s.Name == zzRSName {
+			for _, cd := range s.Status.Conditions {
+				if cd.Type == datadoghqv1alpha1.ConditionTypeReconcileError && cd.Status == corev1.ConditionTrue {
+					recErr = true
+				}
+				if cd.Type == datadoghqv1alpha1.ConditionTypePodsCleanupDone && cd.Status == corev1.ConditionFalse {
+					cleanupFalse = true
+				}
+			}
+		}
+	}
+	// every planned call of each batch is attempted, also after an earlier one of the batch failed
+	nondet.Assert("C17.batch.all-attempted", nCreate == k && nDelete == k && nCleanup == k)
+	if failedStatus {
+		nondet.Assert("C17.batch.status-failure-returned", err != nil)
+	} else {
+		if failedCreate+failedDelete > 0 {
+			nondet.Assert("C17.batch.create-delete-error-recorded", recErr || err != nil)
+		}
+		if failedCleanup > 0 {
+			nondet.Assert("C17.batch.cleanup-error-recorded", recErr || cleanupFalse || err != nil)
+		}
+		if failedCreate+failedDelete+failedCleanup == 0 {
+			nondet.Assert("C17.batch.no-spurious-error", !recErr && !cleanupFalse && err == nil)
+		}
+	}
+	nondet.Observe("recorded", recErr || cleanupFalse)
+	nondet.Reach("C17.batch.first-ok-last-failed", failedCreate == 1 && failedDelete == 0 && failedCleanup == 0 && !failedStatus)
+	nondet.Reach("C17.batch.only-cleanup-failed", failedCreate+failedDelete == 0 && failedCleanup == 1 && !failedStatus)
+	nondet.Reach("C17.batch.all-failed", failedCreate == k && failedDelete == k && failedCleanup == k && !failedStatus)
+}
+
+// ZZ_C17_largeBatch: batches at the sizes the property names (2 .. 64 simultaneous calls).  One
+// kind of batch per path (n creations, n update deletions or n clean-up deletions); exactly one
+// call of the batch — at a symbolic position — fails (rejected, or applied with the answer lost)
+// and every other call succeeds, or all of them fail.  The failure must be recorded whatever
+// its position.  n in {2, 33, 64} (quick), {2, 3, 8, 16, 31, 32, 33, 48, 63, 64} (thorough).
+func ZZ_C17_largeBatch() {
+	sizes := []int{2, 33, 64}
+	if nondet.Thorough() {
+		sizes = []int{2, 3, 8, 16, 31, 32, 33, 48, 63, 64}
+	}
+	n := sizes[0]
+	pick := nondet.Int("batchSize", 0, len(sizes)-1)
+	for i, v := range sizes {
+		if pick == i {
+			n = v
+		}
+	}
+	kind := nondet.String("batchKind", "create", "update-delete", "cleanup")
+	c, ds, rsNew, _ := zzStore(n)
+	ds.Status.ActiveReplicaSet = rsNew.Name
+	budget := intstr.FromInt(n)
+	ds.Spec.Strategy.RollingUpdate.MaxUnavailable = &budget
+	ds.Spec.Strategy.RollingUpdate.MaxParallelPodCreation = func() *int32 { v := int32(n); return &v }()
+	ds.Spec.Strategy.RollingUpdate.SlowStartAdditiveIncrease = &budget
+	for i := 0; i < n; i++ {
+		switch kind {
+		case "update-delete":
+			c.Pods = append(c.Pods, zzPod("out"+zzNodeName(i), zzNodeName(i), zzOldRS, zzHashOld, 0, corev1.PodRunning, true, nondet.Base().Add(-120*1e9)))
+		case "cleanup":
+			c.Pods = append(c.Pods, zzPod("keep"+zzNodeName(i), zzNodeName(i), zzRSName, zzHashNew, 0, corev1.PodRunning, true, nondet.Base().Add(-120*1e9)))
+			c.Pods = append(c.Pods, zzPod("dup"+zzNodeName(i), zzNodeName(i), zzRSName, zzHashNew, 0, corev1.PodRunning, true, nondet.Base().Add(-60*1e9)))
+		}
+	}
+	all := nondet.Bool("allFail")
+	pos := 0
+	if !all {
+		// the failing position, made concrete (one path per position)
+		p := nondet.Int("failingPosition", 0, n-1)
+		for i := 0; i < n; i++ {
+			if p == i {
+				pos = i
+			}
+		}
+	}
+	// the failing call is identified by its node (not by arrival order: natively the calls of a
+	// batch arrive in any order)
+	failNode := zzNodeName(pos)
+	c.FaultOnly = func(verb, k, name, node string) bool {
+		if k != "Pod" || (verb != "create" && verb != "delete") {
+			return false
+		}
+		return all || node == failNode
+	}
+	if all {
+		c.FaultForce = 1
+	}
+	c.InjectFaults = true
+	_, err := zzReconcile(zzReconciler(c, false), zzNS, rsNew.Name)
+
+	calls, failed := 0, 0
+	for _, e := range c.Log {
+		if e.Kind == "Pod" && (e.Verb == "create" || e.Verb == "delete") {
+			calls++
+			if e.Failed {
+				failed++
+			}
+		}
+	}
+	recErr, cleanupFalse := false, false
+	for _, s := range c.ERS {
+		if s.Name == zzRSName {
+			for _, cd := range s.Status.Conditions {
+				if cd.Type == datadoghqv1alpha1.ConditionTypeReconcileError && cd.Status == corev1.ConditionTrue {
+					recErr = true
+				}
+				if cd.Type == datadoghqv1alpha1.ConditionTypePodsCleanupDone && cd.Status == corev1.ConditionFalse {
+					cleanupFalse = true
+				}
+			}
+		}
+	}
+	nondet.Assert("C17.large.all-attempted", calls == n)
+	if failed > 0 {
+		if kind == "cleanup" {
+			nondet.Assert("C17.large.cleanup-error-recorded", recErr || cleanupFalse || err != nil)
+		} else {
+			nondet.Assert("C17.large.error-recorded", recErr || err != nil)
+		}
+	} else {
+		nondet.Assert("C17.large.no-spurious-error", !recErr && !cleanupFalse && err == nil)
+	}
+	nondet.Observe("recorded", recErr || cleanupFalse)
+	nondet.Observe("calls", calls)
+	nondet.Reach("C17.large.first-fails", failed == 1 && !all && pos == 0)
+	nondet.Reach("C17.large.last-fails", failed == 1 && !all && pos == n-1)
+	nondet.Reach("C17.large.all-fail", failed == n)
+}
